@@ -328,7 +328,7 @@ func (f *Frame) dispatch(st *State, e *ast.CallExpr, fn *types.Func, recv *Term,
 		}
 	}
 	// contract?
-	if ct := f.eng.contracts[full]; ct != nil && !(f.top.contract == ct && f.depth == 0 && false) {
+	if ct := f.eng.contracts[full]; ct != nil && !f.inSpec {
 		if err := f.eng.bindContract(ct); err == nil {
 			return f.contractCall(st, e, ct, recv, args, sig)
 		}
